@@ -1646,6 +1646,9 @@ class Interp:
         if fname and not kws and (fname, args) in self.summaries:
             self.effect(s, "call", fname, args, kws, e)
             return [(self.summaries[(fname, args)], s)]
+        if fname and (fname, "*") in self.summaries:  # result fixed by the caller of the analysis for any arguments
+            self.effect(s, "call", fname, args, kws, e)
+            return [(self.summaries[(fname, "*")], s)]
         # ---- builtins with abstract semantics
         if isinstance(e.func, ast.Name):
             n = e.func.id
